@@ -6,6 +6,7 @@ import (
 	"errors"
 	"os"
 	"strconv"
+	"strings"
 	"sync"
 
 	"go.lstv.dev/util/test"
@@ -104,6 +105,19 @@ func (u *upT) set(data []byte) error {
 func (u *upT) UnmarshalText(data []byte) error   { return u.set(data) }
 func (u *upT) UnmarshalBinary(data []byte) error { return u.set(data) }
 func (u *upT) UnmarshalJSON(data []byte) error   { return u.set(data) }
+
+// types that implement the unmarshaler interfaces NOT uniformly: Text and JSON but not Binary (partA),
+// Binary and JSON but not Text (partB). Passing one type to the three Unmarshal* helpers in turn, in
+// one process, is the history in which "what does T implement" must be answered per (type, interface).
+type partA struct{ Got string }
+
+func (u *partA) UnmarshalText(data []byte) error { return (*upT)(u).set(data) }
+func (u *partA) UnmarshalJSON(data []byte) error { return (*upT)(u).set(data) }
+
+type partB struct{ Got string }
+
+func (u *partB) UnmarshalBinary(data []byte) error { return (*upT)(u).set(data) }
+func (u *partB) UnmarshalJSON(data []byte) error   { return (*upT)(u).set(data) }
 
 // T may itself be an interface type (one table mixing implementations): the helpers then see the
 // dynamic type of each case's value
@@ -351,6 +365,10 @@ func init() {
 				})
 			case iface && recv == "ifacetype":
 				runHelper(t, dir, enc, cs, func(i int) allU { return &upT{Got: "right"} })
+			case recv == "partA":
+				runHelper(t, dir, enc, cs, func(i int) partA { return partA{Got: "right"} })
+			case recv == "partB":
+				runHelper(t, dir, enc, cs, func(i int) partB { return partB{Got: "right"} })
 			case !iface && recv != "ptrmeth":
 				runHelper(t, dir, enc, cs, func(i int) plainT { return plainT{ID: i} })
 			case dir == "marshal" && recv == "ptrmeth":
@@ -416,6 +434,27 @@ func init() {
 						for _, cases := range [][]any{{right(true, "none")}, {right(false, "none"), right(true, "none")}, {right(true, "none"), right(true, "none"), right(false, "none")}, {right(true, "any")}} {
 							d.Do(Ev{"op": "helper.run", "dir": dir, "enc": enc, "recv": recv, "iface": true, "cases": cases, "th": false})
 						}
+					}
+				}
+			}
+			d.S.Boundary()
+		}
+		// one type, the three unmarshal helpers in turn (both orders, twice round): the type has the
+		// interface of some helpers only, and "iface" is what is true of (type, helper)
+		if d.Mine(0) {
+			c := func(beh, exp string) map[string]any {
+				return map[string]any{"c": "both", "b": "nil", "a": "nil", "beh": beh, "exp": exp}
+			}
+			lists := [][]any{{c("right", "none")}, {c("right", "none"), c("wrong", "none")}, {c("error", "any"), c("right", "none")}}
+			has := map[string]string{"partA": "Text JSON", "partB": "Binary JSON"}
+			for _, run := range []struct {
+				recv string
+				encs []string
+			}{{"partA", []string{"Text", "Binary", "JSON", "Text", "Binary"}}, {"partB", []string{"Text", "Binary", "JSON", "Text", "Binary"}}} {
+				for _, enc := range run.encs {
+					for _, cases := range lists {
+						d.Do(Ev{"op": "helper.run", "dir": "unmarshal", "enc": enc, "recv": run.recv,
+							"iface": strings.Contains(has[run.recv], enc), "cases": cases, "th": false})
 					}
 				}
 			}
